@@ -297,8 +297,11 @@ func TestVerifC11Kill(t *testing.T) {
 			return
 		}
 	}
-	for _, sc := range c11KScenarios(env) {
+	scenarios := c11KScenarios(env)
+	for si, sc := range scenarios {
 		sc := sc
+		penv := c11PartEnv(env, len(scenarios)-si)
+		cpu0 := c11CPUms()
 		res := mc.NewResult("C11", "kill-"+sc.name, "faults")
 		ds := mc.NewDistinctSet()
 		rep := &c11Reporter{}
@@ -328,7 +331,7 @@ func TestVerifC11Kill(t *testing.T) {
 		}
 		dims = append(dims, 2, 1<<uint(sc.n)) // sparse, already-evicted subset
 		rx := mc.Radix{Dims: dims}
-		done, complete := env.ParallelRangeL(res, rx.Size(), func(l *mc.Local, idx int64) {
+		done, complete := penv.ParallelRangeL(res, rx.Size(), func(l *mc.Local, idx int64) {
 			d := rx.Decode(idx, make([]int, 0, 16))
 			c := c11KCase{Pods: make([]c11KPod, sc.n), Already: make([]bool, sc.n)}
 			pos := 0
@@ -426,6 +429,7 @@ func TestVerifC11Kill(t *testing.T) {
 				return ex.calls
 			})
 		})
+		res.Count("cpu_ms", c11CPUms()-cpu0)
 		res.Traces = res.Evaluations
 		res.Distinct = ds.Len()
 		res.Exhaustive = complete
